@@ -351,18 +351,18 @@ def enterW (s : St) (farm w a : Nat) (merge : List (Nat × Nat)) (ft : Nat × Na
 def exitFarm (s : St) (farm f x farming : Nat) (rew : Option LkTok) : Option (St × Out) := do
   req (farming ≤ x)
   let (s1, t) ← takeF s f x (if x = farming then .out else .dissolve true)
-  let s2 : St := learnOpt (if farmIsBase farm then { s1 with burnB := s1.burnB + farming }
-                           else { s1 with lp := s1.lp + farming }) rew
+  let s2 : St := if farmIsBase farm then { s1 with burnB := s1.burnB + farming }
+                 else { s1 with lp := s1.lp + farming }
   if x = farming then
     match t.r.kind with
-    | .locked => pure (s2, { locked := (t.r.pn, t.p), rew := rewOf rew })
-    | .wlp => pure (s2, { wOut := (t.r.pn, t.p), rew := rewOf rew })
+    | .locked => pure (learnOpt s2 rew, { locked := (t.r.pn, t.p), rew := rewOf rew })
+    | .wlp => pure (learnOpt s2 rew, { wOut := (t.r.pn, t.p), rew := rewOf rew })
   else
     let pen := x - farming
     let remaining ← sub? t.p pen
     match t.r.kind with
     | .locked =>
-        pure (burnLocked s2 t.r.pn pen,
+        pure (learnOpt (burnLocked s2 t.r.pn pen) rew,
               { locked := (t.r.pn, remaining), rew := rewOf rew, burned := (t.r.pn, pen),
                 eDed := energyOf s2 t.r.pn pen })
     | .wlp => do
@@ -371,8 +371,9 @@ def exitFarm (s : St) (farm f x farming : Nat) (rew : Option LkTok) : Option (St
         let extra ← sub? t.q qN
         let s3 := if extra = 0 then s2 else burnLocked s2 rw.k extra
         let (s4, nw) := newW s3 remaining rw.k qN true
-        pure (s4, { wOut := (nw, remaining), rew := rewOf rew, burned := (rw.k, extra),
-                    eDed := if extra = 0 then 0 else energyOf s2 rw.k extra, newW := nw })
+        let o : Out := { wOut := (nw, remaining), rew := rewOf rew, burned := (rw.k, extra),
+                         eDed := if extra = 0 then 0 else energyOf s2 rw.k extra, newW := nw }
+        pure (learnOpt s4 rew, o)
 
 /-- `claimRewardsProxy` of `x` of wrapped farm token `f`; the farm returns the new farm token `ft`. -/
 def claim (s : St) (farm f x : Nat) (ft : Nat × Nat) (rew : Option LkTok) : Option (St × Out) := do
